@@ -219,13 +219,18 @@ def kill_run(cfg, kills):
     o_dump = sbase.safe_file_dump
     leg = {}
 
+    last = {"counter": None, "time": None}
+
     def dump(data, filename, *a, **k):
         # evaluation accounting at every checkpoint of every leg
         g = leg["guard"]
         expected = leg["c0"] + (g.rows - leg["rows_setup"])
         if data.model.likelihood_evaluations != expected:
             errs.append(("evaluation-count-at-checkpoint", f"counter {data.model.likelihood_evaluations} vs {leg['c0']} restored + {g.rows - leg['rows_setup']} evaluated in this leg (leg {legs}, iteration {data.iteration})"))
-        return o_dump(data, filename, *a, **k)
+        r = o_dump(data, filename, *a, **k)
+        last["counter"] = data.model.likelihood_evaluations
+        last["time"] = data.model.likelihood_evaluation_time
+        return r
 
     sbase.safe_file_dump = dump
     try:
@@ -242,6 +247,10 @@ def kill_run(cfg, kills):
                     prev = getattr(fs.ns, "_previous_likelihood_evaluations", 0) if legs > 1 and (fs.ns.iteration > 0 or getattr(fs.ns, "resumed", False)) else 0
                     if legs > 1 and c0 != prev:
                         errs.append(("evaluation-count-not-restored-from-checkpoint", f"{c0} vs checkpointed {prev}"))
+                    if legs > 1 and last["counter"] is not None and c0 != last["counter"]:
+                        errs.append(("evaluation-count-after-resume-differs-from-the-count-at-the-last-checkpoint", f"leg {legs} starts from {c0}; the last completed checkpoint was written when the counter was {last['counter']}"))
+                    if legs > 1 and last["time"] is not None and model.likelihood_evaluation_time < last["time"] - datetime.timedelta(milliseconds=1):
+                        errs.append(("likelihood-time-after-resume-below-the-time-at-the-last-checkpoint", f"{model.likelihood_evaluation_time} < {last['time']}"))
                     st0 = fs.ns.sampling_time
                     model.vectorised_likelihood  # force the lazy vectorisation probe now
                     leg.update(guard=g, c0=c0, rows_setup=g.rows)
